@@ -484,6 +484,18 @@ def run_c11(ctx, spec):
                 raise
             out["violations"].append(viol(pid, "the implementation raised while its action spaces were enumerated",
                                           traceback=tb[-2000:], **where))
+    # the mask along whole histories (mask queries right after resets, between steps, after further resets)
+    hcfg = dict(need_flat=True, traj_fields={"mask", "error"},
+                op_weights=dict(step=0.5, gen=0.04, reset=0.14, goal=0.02, mask=0.3))
+    rep, bad, hcases, _ = dyn.run_stream("C11", seed + 11, 50 if tier == "quick" else 800, (8, 40), hcfg, jobs=12)
+    evals += rep["ops"]
+    for c in bad:
+        i, f = c["diff"]
+        out["violations"].append(viol(pid, f"along this history the action mask (field '{f}') at operation {i} is not "
+                                           "'target host discovered' per flat action", kind="history",
+                                      scenario=c["sd"], modes=c["modes"], ops=c["ops"][:i + 1],
+                                      impl=str(dyn.split_out(c["impl"][i]).get(f))[:600],
+                                      prescribed=str(dyn.split_out(c["model"][1][i]).get(f))[:600] if c["model"] != [-1] else None))
     seen, uniq = set(), []
     for v in out["violations"]:
         key = v["what"][:60]
@@ -492,7 +504,7 @@ def run_c11(ctx, spec):
             uniq.append(v)
     out["violations"] = uniq[:5]
     out["evaluations"], out["distinct_nontrivial"] = evals, len(distinct)
-    out["correspondence"] = dict(scenarios=nscen, checks=evals,
+    out["correspondence"] = dict(scenarios=nscen, checks=evals, mask_history_ops=rep["ops"],
                                  in_kernel_crosscheck=crosscheck(pid, tier, cmds_outs, spec["coq_sample"][tier], seed))
     return out
 
